@@ -200,8 +200,13 @@ def judge_instance(chk, inst, exp, rrs, det, mon, own, pre_content=None, known=N
     for rr in rrs:
         hang = rr.timeout or rr.deadlock
         if hang and not norm_inst(inst)["faults"]:
-            report("C05", "workflow did not return (%s) on instance %s bufsize=%s" %
-                   ("Go runtime: all goroutines are asleep" if rr.deadlock else "timeout", inst["name"], rr.variant.get("bufsize")), rr)
+            how = "Go runtime: all goroutines are asleep" if rr.deadlock else "timeout"
+            report("C05", "workflow did not return (%s) on instance %s bufsize=%s" % (how, inst["name"], rr.variant.get("bufsize")), rr)
+            ran = exec_counts(rr.cmdlog)
+            never = sorted(set(exp["execkeys"]) - set(ran))
+            if never and exp["mergeinsensitive"]:
+                report("C04", "complete input sets were never processed: the workflow stopped making progress (%s) with %d of %d tasks executed, e.g. missing %s (instance %s bufsize=%s)"
+                       % (how, len(ran), len(exp["execkeys"]), never[:3], inst["name"], rr.variant.get("bufsize")), rr)
             continue
         if rr.panic:
             report("C04", "workflow program panicked: %s" % rr.stderr[-300:].replace("\n", " | "), rr)
